@@ -58,6 +58,20 @@ PROP = [  # (subject fragment, property, also)
  ("DROP COLUMN / CHANGE COLUMN keep dependent objects consistent", "C33", "C15"),
  ("Database::drop_table also drops the indexes recorded under", "C33", ""),
  ("RENAME TO moves the table's user-defined indexes", "C33", ""),
+ ("INSERT coerces integer literals to SMALLINT", "C19", ""),
+ ("INSERT accepts 'NaN', 'Infinity' and '-Infinity'", "C19", ""),
+ ("SQL dump statement splitter follows the lexer's string rules", "C19", ""),
+ ("SQL dumps write negative zero as -0.0", "C19", ""),
+ ("load_sql_dump truncates a failing statement for its error message", "C20", ""),
+ ("CHAR/VARCHAR values are truncated at a character boundary", "C20", "C24"),
+ ("binary loader rejects a row count for a table without columns", "C20", ""),
+ ("TIME/TIMESTAMP parsing rejects non-digit fractional seconds", "C24", "C20"),
+ ("SUBSTRING counts characters instead of slicing bytes", "C24", ""),
+ ("CAST(... AS VARCHAR(n)) truncates at a character boundary", "C24", ""),
+ ("unary minus and ABS report an error for the most negative integer", "C24", ""),
+ ("columnar SUM/AVG over integers accumulate exactly", "C24", "C03"),
+ ("TRIM with an empty trim string returns its argument", "C24", ""),
+ ("ON DUPLICATE KEY UPDATE col = col + n reports integer overflow", "C24", ""),
 ]
 def main():
     root = sys.argv[1] if len(sys.argv) > 1 else "/verif"
